@@ -241,6 +241,8 @@ class REPEX_state:
             self.swap(traj_idx, ens)
             self.lock(ens)
             trajs.append(self._trajs[ens])
+        # the resumed job is in flight again, keep it on record
+        self.locked.append((list(enss), list(trajs0)))
         if self.printing():
             self.print_pick(tuple(enss), tuple(trajs0), self.cworker)
         picked = {}
